@@ -127,10 +127,12 @@ prop("C08", level="proof",
      level_note="Assumed: re.escape(t) denotes exactly t, '.*' any newline-free string, '$' end of string (paths contain no newline). " + _BND_NOTE, technique=_BND_TECH,
      explanation="glob->regex proved on strings; pruning behaviour bounded", roots=["convert_partial_match_to_regex@str", "glob_shape_exact", "glob_shape_suffix", "glob_shape_prefix", "glob_shape_infix"],
      bounded=[_b("projects", "bounded_exclusions")], trusted_base=_TB)
-prop("C09", level="exploration",
-     level_text="Bounded exploration: for random trees, every module_path depth and every k, the level-limited architecture is compared with the truncation quotient of the full one, and rule "
+prop("C09", level="other",
+     level_text="Mixed. PROVED: the limit arithmetic (_add_extra_levels_to_limit_if_root_and_module_path_differ: raised by the number of dotted components between root_path and module_path), "
+                "NetworkxGraph._create_node / _create_edge over flattened names (no edge to an unknown module, self edges dropped after flattening, single edge per pair). BOUNDED: the truncation "
+                "itself (_flatten_graph_node: split/join) and the quotient / verdict-preservation claims: for random trees, every module_path depth and every k, the level-limited architecture is compared with the truncation quotient of the full one, and rule "
                 "verdicts on names at or above the limit are compared between the two.",
-     level_note=_BND_NOTE, technique=_BND_TECH, explanation="quotient graph", roots=[], bounded=[_b("projects", "bounded_level_limit")], trusted_base=_TB)
+     level_note=_BND_NOTE, technique=_BND_TECH, explanation="quotient graph", roots=["_add_extra_levels_to_limit_if_root_and_module_path_differ", "NetworkxGraph._create_edge", "NetworkxGraph._create_node"], bounded=[_b("projects", "bounded_level_limit")], trusted_base=_TB)
 prop("C10", level="proof",
      level_text="Proved (string view) for every stage that implements the external options: ExternalImportFilter.filter keeps every import whose importee is internal in EVERY "
                 "configuration and drops an external import iff the importee or one of its dotted ancestors matches a pattern; ImporteeModuleCalculator adds exactly the importees and their "
